@@ -1030,7 +1030,7 @@ def child_handle(case: Any) -> Any:
         return modelops.op_libedit(case)
     if op == "sender":
         return op_sender(case)
-    if op in ("dumporder", "methods", "eqprobe", "helper", "helpers", "shared", "unionseq"):
+    if op in ("dumporder", "methods", "eqprobe", "helper", "helpers", "shared", "unionseq", "seqfork", "constructed", "class_names"):
         return modelops.child_handle(case)
     if op == "drive":
         d = DRIVERS.get(case["site"])
